@@ -555,7 +555,7 @@ def check_c18(tier, seed, log=print):
                                           what='the tokenizer/parse_definition model (Attr.parseArgs, repaired rule) and the real parser disagree on this argument list',
                                           correspondence='T-D AttributeParser vs LogosModel.Attr'), no_input=True, key='attrtie|' + c['src'])
     for g, idxs in groups.items():
-        logos_level = cases[idxs[0]]['family'] in ('c18-logos', 'c18-logos-pairs')
+        logos_level = cases[idxs[0]]['family'] in ('c18-logos', 'c18-logos-pairs', 'c18-logos-overlap')
         # groups marked exact permute items that cannot move a leaf: the generated code itself must not change
         sigf = lexer_sig if logos_level else sig_of
         base = sigf(caps[idxs[0]])
